@@ -50,6 +50,7 @@ type Tree struct {
 	Quiet  bool     `json:"quiet,omitempty"`
 	// WideTxns counts transactions of more than 30 writes
 	WideTxns int `json:"wide_txns,omitempty"`
+	HugeTxns int `json:"huge_txns,omitempty"`
 	byHash map[string]*Block
 }
 
@@ -163,6 +164,9 @@ func Gen(rt *rapid.T, p Params) *Tree {
 		n = gen.Uniform(rt, 22, 60, "nblocksquiet") // far below the 2000 links a lookup is willing to walk
 		if gen.Chance(rt, 50, "veryquiet") {
 			n = gen.Uniform(rt, 105, 150, "nblocksveryquiet") // answers more than 100 links back
+			if gen.Chance(rt, 25, "extremelyquiet") {
+				n = gen.Uniform(rt, 262, 300, "nblocksextremelyquiet") // answers more than 256 links back
+			}
 		}
 	}
 	t.Quiet = quiet
@@ -245,7 +249,12 @@ func Gen(rt *rapid.T, p Params) *Tree {
 			if wideTree && gen.Chance(rt, 40, "widetx") {
 				// a big transaction: the few keys that are looked up plus 32..70 others, in one batch
 				var fill []Write
-				for f, nf := 0, gen.Uniform(rt, 30, 70, "nfill"); f < nf; f++ {
+				nf := gen.Uniform(rt, 30, 70, "nfill")
+				if gen.Chance(rt, 12, "hugetx") {
+					nf = gen.Uniform(rt, 1020, 1100, "nfillhuge")
+					t.HugeTxns++
+				}
+				for f := 0; f < nf; f++ {
 					fill = append(fill, Write{Key: fmt.Sprintf("w%d", f), Val: fmt.Sprintf("f%d", valSeq+f)})
 				}
 				if gen.Chance(rt, 50, "fillfirst") {
